@@ -231,15 +231,16 @@ def _cli_clause(case):
     # factor, so that the printed total needs seven and more significant digits
     if int(case_hash(case), 16) % 2 == 0:
         base["costs"] = {k: (v if v == INF else v * 1234567) for k, v in base["costs"].items()}
-    for algo, mode in (("thl", "plain"), ("ext_spfs", "ordered"), ("superdtl", "unordered")):
+    for algo, mode in (("thl", "plain"), ("lca", "plain"), ("ext_spfs", "ordered"), ("superdtl", "unordered")):
         for policy in ("any", "all"):
-            status, lines, printed, err, _raw = stubs.cli_reconcile(base, algo, policy)
+            status, lines, printed, err, _raw = stubs.cli_reconcile(base, algo, policy, omit_default_flags=(policy == "any"), decoy_file_costs=(algo != "thl"))
             if status != 0 or not lines:
                 raise Violation(f"cli.{algo}.status", observed={"status": status, "lines": len(lines), "stderr": err[-300:]},
                                 expected="status 0 and >=1 solution")
             for line in lines[:50]:
                 data = json.loads(line)
-                ocase = dict(data["input"])
+                # recounted under the cost options the tool was given, whatever the written object says about costs
+                ocase = dict(data["input"], costs=base["costs"])
                 inst = Instance(ocase)
                 m = data["object_species"]
                 lab = data.get("syntenies") if mode != "plain" else None
